@@ -321,7 +321,17 @@ def save_hdf5(h5path, indent, user_rate, user_name, user_comment, h5mode="a"):
         if idd in ana:
             # Only allow overriding of user data if fit matches.
             # Otherwise, the rating might be wrong.
-            if not np.allclose(indent["fit"], ana[idd]["fit"], equal_nan=True):
+            fit_new = np.asarray(indent["fit"])
+            fit_old = ana[idd]["fit"][...]
+            # The tolerance must be relative to the magnitude of the data
+            # (forces are of the order of 1e-9 N; the default absolute
+            # tolerance of `np.allclose` is 1e-8).
+            with np.errstate(invalid="ignore"):
+                scale = np.nanmax(np.abs(fit_old)) \
+                    if np.any(~np.isnan(fit_old)) else 0
+            if (fit_new.shape != fit_old.shape
+                or not np.allclose(fit_new, fit_old, equal_nan=True,
+                                   rtol=1e-5, atol=1e-8 * scale)):
                 raise ValueError("Cannot store rating for different fit in "
                                  "same rating container!")
             out = ana[idd]
